@@ -4,14 +4,14 @@
 # change, and fails if a change that is expected to be caught is not (or the other way round).
 # Expectations are in selftest/expect.txt. /repo must be clean; it is left clean.
 cd "$(dirname "$0")/.."
-names="$@"; [ -n "$names" ] || names=$(ls seeded)
+names="$*"; [ -n "$names" ] || names=$(ls seeded | tr '\n' ' ')
 out=$(tools/run_seeds.sh $names 2>&1); echo "$out"
 rc=0
 while read -r seed want; do
   [ -z "$seed" ] && continue
   case " $names " in *" $seed "*) ;; *) continue ;; esac
   line=$(echo "$out" | grep "^$seed:")
-  if echo "$line" | grep -q "exit=1"; then got=caught; else got=missed; fi
+  if echo "$line" | grep -q "exit=1"; then got=caught; elif echo "$line" | grep -q "does not apply"; then got=stale; else got=missed; fi
   if [ "$want" != "$got" ]; then echo "SELFTEST MISMATCH: $seed expected $want, got $got ($line)"; rc=1; fi
 done < selftest/expect.txt
 [ $rc = 0 ] && echo "selftest: every seeded change behaved as expected"
